@@ -56,6 +56,19 @@ def cipher_plan(c):
                       'cpp.dec obj=2 ct=@ct ad=%s form=%s noad=1' % (hx(ad), form)]
         lines += ['cpp.del obj=1', 'cpp.del obj=2']
         p.case(lines, cost=w * 8); c.distinct([(cls, 'dec')])
+    # a short nonce after a full one on the same object (left-padded with zeros, not with what was there), and the
+    # documented all-zero key of never-keyed objects for every class in one process, in both orders of the ISAP variants
+    for cls, klen, _isap in CLASSES:
+        p.case(['cpp.new cls=%s obj=1 how=key key=%s' % (cls, hx(pattern(rng, klen, 'rand'))), 'cpp.set_nonce obj=1 n=%s' % hx(bytes([0xee] * 16)), enc(rng, 1),
+                'cpp.set_nonce obj=1 n=%s' % hx(pattern(rng, rng.choice([1, 7, 12, 15]), 'rand')), enc(rng, 1), 'cpp.set_counter obj=1 ctr=%d' % rng.getrandbits(64),
+                'cpp.set_nonce obj=1 n=%s' % hx(pattern(rng, rng.choice([2, 8]), 'rand')), enc(rng, 1), 'cpp.del obj=1'], cost=3.0 if cls in ('isap128', 'isap80pq') else 0.6)
+        c.distinct([(cls, 'short-after-full')])
+    for order in (('isap128a', 'isap128', 'isap80pq'), ('isap128', 'isap128a')):
+        lines = []
+        for k, cls in enumerate(order):
+            lines += ['cpp.new cls=%s obj=%d how=default' % (cls, k + 1), 'cpp.set_nonce obj=%d n=%s' % (k + 1, hx(pattern(rng, 16))), 'cpp.enc obj=%d m=%s ad=- form=ptr' % (k + 1, hx(pattern(rng, 5)))]
+        lines += ['cpp.del obj=%d' % (k + 1) for k in range(len(order))]
+        p.case(lines, cost=8.0); c.distinct([('zero-key-order', order)])
     return p
 
 def cxx_plan(c):
